@@ -7,6 +7,10 @@ ALL = ["C%02d" % i for i in range(1, 21)]
 # id -> (technique, level text, level note, design ref)
 PROG_NOTE = "Trusted: refsem (reference interpreter over the generator's typed model) as the source meaning; miniGo (own Go-subset lexer/parser/type checker/interpreter) as the Go toolchain, calibrated on every run against the Go recorded from real runs of the corpus; shapes excluded by open known findings are counted in the evidence (excluded_by_gate). Absence beyond the explored programs is not shown."
 CLAIMED = {
+ "C03": ("generated accepted programs re-type-checked at every IR stage by independent checkers; single ill-typed statement injected at random positions must be rejected",
+         "Exploration: (a) ~54k (quick) / ~880k (thorough) accepted generated programs: four independent IR type checkers (Core, Mono, Lift, ANF) must find every variable bound with the binder's type, every call/constructor/projection/operator/branch consistent with declared signatures, and no TParam/TVar/TApp residue after monomorphisation; (b) ~40k / 600k programs with one ill-typed statement of 28 kinds inserted at a random position in a random nested block must be rejected with an error diagnostic (never accepted, never a crash).",
+         "Trusted: irck (sensitivity measured by 26k injected IR corruptions, 99.3% caught); the catalogue of ill-typed statements follows the language description; ill-typedness that depends on inference order is not injected.",
+         "DESIGN.md §5 C03"),
  "C01": ("differential PBT: reference interpreter of the generated typed program vs Go-subset interpreter of the emitted Go; type-directed program generator; corpus outputs recorded from real Go",
          "Exploration: ~76k (quick) / ~1.1M (thorough) type-directed random programs in three size classes and five generator biases are compiled; stdout and end state (normal exit / division by zero / index out of range / failed match) of the emitted Go under miniGo must equal refsem's run of the source model; additionally the Go currently emitted for every corpus program must reproduce the output recorded from real Go.",
          PROG_NOTE, "DESIGN.md §5 C01"),
